@@ -416,7 +416,18 @@ func run(c *mon.Ctx) {
 			}
 		}
 		if r.Chance(3) {
-			rm = append(rm, 8191) // not a stream
+			absent := 8191 // a PID that is not a stream of this table
+			for {
+				is := false
+				for _, s := range p.Streams {
+					is = is || s.PID == absent
+				}
+				if !is {
+					break
+				}
+				absent--
+			}
+			rm = append(rm, absent)
 		}
 		if len(rm) > 0 && r.Chance(3) {
 			rm = append(rm, rm[0])
